@@ -198,6 +198,11 @@ func isDelivery(p *refcodec.Packet, d *Delivery) bool {
 // Compare checks what a receiver got against its expectation.  Anything left
 // over is reported as unexpected.
 func Compare(name string, got []*refcodec.Packet, e *Exp) []Mismatch {
+	return CompareC(name, got, e, nil)
+}
+
+// CompareC is Compare with a classifier for unexpected PUBLISH packets.
+func CompareC(name string, got []*refcodec.Packet, e *Exp, classify func(p *refcodec.Packet) string) []Mismatch {
 	var mm []Mismatch
 	used := make([]bool, len(got))
 	if e == nil {
@@ -251,6 +256,11 @@ func Compare(name string, got []*refcodec.Packet, e *Exp) []Mismatch {
 		case refcodec.PUBLISH:
 			if p.Retain {
 				comp = "retained"
+			}
+			if classify != nil {
+				if c := classify(p); c != "" {
+					comp = c
+				}
 			}
 		case refcodec.CONNACK:
 			if e.MayCodes[p.ReturnCode] && !p.SessionPresent {
